@@ -932,21 +932,36 @@ func (w *c19World) checkClobber(before []c19WrapSnap, actor *Client) {
 }
 
 func (w *c19World) checkClone(c, cc *Client) {
-	if cc.Dump != nil {
-		if o, ok := cc.Dump.Options.(dumpOptions); !ok || o.DumpOptions != cc.dumpOptions {
-			if oo, ok := c.Dump.Options.(dumpOptions); ok && oo.DumpOptions == c.dumpOptions {
-				w.setClass("dump-options-unlinked")
-			}
-		}
-	}
 	if c.t2 != nil && cc.t2 != nil && c.t2.AllowHTTP != cc.t2.AllowHTTP {
 		w.setClass("h2c-allowhttp-dropped")
 	}
-	if a, b := c.TLSClientConfig, cc.TLSClientConfig; a != nil && b != nil {
-		if a.RootCAs != nil && a.RootCAs == b.RootCAs {
+}
+
+// a dump setter is about to change c.dumpOptions in place while c's dumper follows another copy
+func (w *c19World) checkDumpLink(c *Client) {
+	if c.Dump != nil {
+		if o, ok := c.Dump.Options.(dumpOptions); ok && o.DumpOptions != c.dumpOptions {
+			w.setClass("dump-options-unlinked")
+		}
+	}
+}
+
+// SetRootCert* / SetCerts is about to write into a pool / backing array another client also uses
+func (w *c19World) checkTLSShared(c *Client, certs bool) {
+	a := c.TLSClientConfig
+	if a == nil {
+		return
+	}
+	for _, o := range w.owners {
+		if o.isReq || o.c == c || o.c.TLSClientConfig == nil {
+			continue
+		}
+		b := o.c.TLSClientConfig
+		if !certs && a.RootCAs != nil && a.RootCAs == b.RootCAs {
 			w.setClass("tls-config-shared")
 		}
-		if len(a.Certificates) > 0 && len(b.Certificates) > 0 && &a.Certificates[0] == &b.Certificates[0] && cap(a.Certificates) > len(a.Certificates) {
+		if certs && len(a.Certificates) > 0 && len(b.Certificates) > 0 && &a.Certificates[0] == &b.Certificates[0] &&
+			cap(a.Certificates) > len(a.Certificates) {
 			w.setClass("tls-config-shared")
 		}
 	}
